@@ -129,6 +129,22 @@ Theorem C14_agreement_deliverfrom : forall n t skip H toolong byz, 3 * t < n -> 
 Proof. exact agreement_deliverfrom. Qed.
 Print Assumptions C14_agreement_deliverfrom.
 
+(* TOTALITY, the part that is proved (`_partial`): once every r-ready has been handed over to its honest receivers
+   (ready_quiescent: the first-time filter ready[l][tag] is set for every r-ready (l -> q) in the network), a digest accepted
+   for a slot by ONE honest party (dbar: 2t+1 r-ready -- the precondition of every delivery on the Bracha path) is accepted
+   by EVERY honest party: t+1 honest readys reach everybody, everybody amplifies, everybody collects n-t >= 2t+1.
+   The rest of the liveness clause (payload retrieval by r-request/r-answer, the deliver buffer, validity for honest senders)
+   is stated as RbcBracha.delivery_at_quiescence_statement and is NOT proved. *)
+Theorem C14_totality_digest_partial : forall n t skip H toolong byz, 3 * t < n -> 0 <= t ->
+  forall B, Z.of_nat (length B) <= t -> (forall l, byz l = true -> In l B) ->
+  (forall tg x, toolong tg (H x) = false) ->
+  forall es p q tg d,
+    ready_quiescent n byz (grun n t skip H toolong byz es) ->
+    dbar (gp (grun n t skip H toolong byz es) p) tg = Some d -> honest n byz q = true ->
+    dbar (gp (grun n t skip H toolong byz es) q) tg = Some d.
+Proof. exact totality_digest. Qed.
+Print Assumptions C14_totality_digest_partial.
+
 (* r-send messages of an honest party exist only because of its own Broadcast calls (nobody can make it "send" a value) *)
 Theorem C14_rsend_only_by_broadcast : forall n t skip H toolong byz es j dst m,
   In (j, dst, m) (gsent (grun n t skip H toolong byz es)) -> m_act m = 1 ->
@@ -180,3 +196,9 @@ Proof.
   exact (C14_integrity 4 1 0 Hodd (fun _ _ => false) (fun _ => false) N3 T0 [] Bs Bb Hodd_nonzero Hodd_inj
            full_events 2 0 0 1 42 P1 eq_refl).
 Qed.
+
+(* the run above with every r-ready handed over meets the premises of the totality theorem *)
+Example C14_nonvacuous_totality_premises :
+  ready_quiescent 4 (fun _ => false) quiet_run /\ dbar (gp quiet_run 0) (0, 0, 1) = Some 85 /\
+  honest 4 (fun _ => false) 3 = true.
+Proof. split; [exact quiet_run_quiescent|]. split; [exact quiet_run_dbar|reflexivity]. Qed.
